@@ -11,12 +11,16 @@ modifier bits / key fields / `unicode` calls, what each arm assigns, writes or r
   the definition the driver also runs against the implementation on every case) coincides with the
   hand-written model for all inputs — a semantic tie: swapping two rules that changes nothing
   still proves, dropping a modifier from a guard or turning `&&` into `||` does not.
-* `facts_*_body` (for `MatchString`, `String`, `decodeKey`, whose loops over symbolic lists are not
-  evaluated symbolically yet): the extracted decision structure is the one the hand-written model
-  of `Model/Key.lean` was transcribed from (`Lemmas/KeyBodyPin.lean`).  Swapping two arms, dropping
-  a modifier from a guard, turning `&&` into `||`, changing a constant in a guard… changes the `Gen`
-  term and breaks the theorem (a syntactic tie; the driver additionally runs the interpreted bodies
-  against the hand model and the implementation on every case).
+* `string_body_eq_model`, `decodeKey_body_eq_model` (+ per-arm corollaries), `matchString_body_eq_model`:
+  the same semantic tie for `Key.String`, `decodeKey` and `Key.MatchString`, for all inputs.  The bodies
+  are evaluated statement by statement over an abstract environment (`Lemmas/KeyBodyEval*.lean`); the
+  `for … range` loops over symbolic lists (`keyNames`, the CSI sub-parameter lists, the fields of
+  `strings.Split`) are related to the recursive helpers of the hand model (`findKeyName`, `findName`,
+  `csiCodes`, `csiMods`, `csiParams`, `parseMods`) by induction on the list.  The decomposition of each
+  body into its statements is checked by `rfl` against the regenerated `Gen` term, so any change of the
+  source's decision structure breaks the theorem.
+* `facts_*_body`: the extracted terms equal the frozen copies of `Lemmas/KeyBodyPin.lean` (kept; now
+  subsumed by the `*_body_eq_model` theorems).
 -/
 import VaxisModel.Model.KeyBody
 import VaxisModel.Lemmas.KeyBodyPin
